@@ -636,7 +636,10 @@ def c11(run, drv, rng, ncases):
 
 def main(prop, tier, seed):
     run = common.Run(prop, tier, seed)
-    aud = common.audit(prop, thorough=(tier == "thorough"))
+    if prop == "C10":
+        aud = common.audit_with_arith(prop, "C10Gen", thorough=(tier == "thorough"))
+    else:
+        aud = common.audit(prop, thorough=(tier == "thorough"))
     common.use_repo_source()
     thorough = tier == "thorough"
     drv = common.Driver()
